@@ -77,56 +77,86 @@ Lemma frame_ext f v2 inc cmp sq sy co m ck lk ts sg :
 Proof. intros; destruct f; cbn in *; subst; reflexivity. Qed.
 Ltac close_frame := do 3 f_equal; apply frame_ext; cbn; auto.
 
-(* reading the spec layout of a well-formed frame, followed by anything, returns exactly
-   that frame and leaves exactly what followed *)
+Ltac close_um := f_equal; f_equal; apply frame_ext; cbn; auto.
+
+Lemma unmarshal_spec_v2 f p rest : frame_wf f p -> f_v2 f = true ->
+  g_unmarshal_v2 fstream f_peek_discard f_read_full (map B (tl (spec_bytes f p)) ++ rest) = (Ok f, rest).
+Proof.
+  intros W V. unfold frame_wf in W. destruct W as (Hm & Hp & Hl & Hs & Hy & Hc & Hk & Hv).
+  unfold spec_bytes, frame_id in *. rewrite V in *. destruct Hv as (Hid & Hcm & Hsig).
+  cbn [tl app map]. unfold g_unmarshal_v2.
+  match goal with |- context [f_peek_discard 9 ?l] =>
+    replace l with (map B [nlen p; f_inc f; f_cmp f; f_seq f; f_sys f; f_comp f;
+                           msg_id (f_msg f) mod 256; (msg_id (f_msg f) / 256) mod 256; msg_id (f_msg f) / 65536]
+                    ++ (map B p ++ map B [f_ck f mod 256; f_ck f / 256] ++
+                        map B (if f_inc f =? 1 then sig_block f else []) ++ rest))
+      by (rewrite !map_app; cbn [map app]; rewrite <- !app_assoc; reflexivity) end.
+  rewrite fpd_exact by reflexivity.
+  assert (Hinc : negb (f_inc f =? 0) && negb (f_inc f =? 1) = false).
+  { destruct Hsig as [(Hi & _) | (Hi & _)]; rewrite Hi; reflexivity. }
+  rewrite Hinc. unfold nlen. rewrite Nat2N.id. rewrite fpayload_exact.
+  rewrite fpd_exact by reflexivity. rewrite le_dec_2, le_dec_3 by assumption.
+  destruct Hsig as [(Hi & Hsg & Hlk & Hts) | (Hi & Hlk & Hts & s & Hsg & Hsl & Hsb)].
+  - unfold is_signed. cbn [f_inc]. rewrite Hi. cbn [N.land N.eqb negb app map]. close_um.
+  - unfold is_signed. cbn [f_inc]. rewrite Hi. cbn [N.land Pos.land N.eqb negb N.eqb Pos.eqb].
+    unfold sig_block. rewrite Hsg.
+    match goal with |- context [f_peek_discard 13 ?l] =>
+      replace l with (map B ([f_link f; f_ts f mod 256; (f_ts f / 256) mod 256; (f_ts f / 65536) mod 256;
+                              (f_ts f / 16777216) mod 256; (f_ts f / 4294967296) mod 256;
+                              f_ts f / 1099511627776] ++ s) ++ rest) by reflexivity end.
+    rewrite fpd_exact by (rewrite app_length, Hsl; reflexivity).
+    cbn [hd app skipn firstn]. rewrite le_dec_6 by assumption.
+    unfold set_sig. cbn [f_v2 f_inc f_cmp f_seq f_sys f_comp f_msg f_ck]. close_um.
+Qed.
+
+Lemma unmarshal_spec_v1 f p rest : frame_wf f p -> f_v2 f = false ->
+  g_unmarshal_v1 fstream f_peek_discard f_read_full (map B (tl (spec_bytes f p)) ++ rest) = (Ok f, rest).
+Proof.
+  intros W V. unfold frame_wf in W. destruct W as (Hm & Hp & Hl & Hs & Hy & Hc & Hk & Hv).
+  unfold spec_bytes, frame_id in *. rewrite V in *. destruct Hv as (Hid & Hi & Hcm & Hsg & Hlk & Hts).
+  cbn [tl app map]. unfold g_unmarshal_v1.
+  match goal with |- context [f_peek_discard 5 ?l] =>
+    replace l with (map B [nlen p; f_seq f; f_sys f; f_comp f; msg_id (f_msg f)]
+                    ++ (map B p ++ map B [f_ck f mod 256; f_ck f / 256] ++ rest))
+      by (rewrite !map_app; cbn [map app]; rewrite <- !app_assoc; reflexivity) end.
+  rewrite fpd_exact by reflexivity.
+  unfold nlen. rewrite Nat2N.id. rewrite fpayload_exact.
+  rewrite fpd_exact by reflexivity. rewrite le_dec_2 by assumption. close_um.
+Qed.
+
+(* what Reader.Read does with a frame once it has been parsed *)
+Definition post_read (cfg : rcfg) (st : rstate) (f : frame) : rresult * rstate :=
+  let '(kerr, st') := match r_inkey cfg with None => (None, st) | Some k => check_key k st f end in
+  match kerr with
+  | Some code => (RParse code, st')
+  | None => match r_dialect cfg with None => (RFrame f, st') | Some d => (check_dialect d f, st') end
+  end.
+
+(* reading the spec layout of a well-formed frame, followed by anything, parses exactly that
+   frame, leaves exactly what followed, and hands the frame to the key / dialect checks *)
+Theorem read_spec_bytes cfg f p st rest : frame_wf f p ->
+  flat_reader_read cfg st (map B (spec_bytes f p) ++ rest) =
+  (fst (post_read cfg st f), snd (post_read cfg st f), rest).
+Proof.
+  intros W. unfold flat_reader_read, g_reader_read, post_read.
+  destruct (f_v2 f) eqn:V.
+  - pose proof (unmarshal_spec_v2 f p rest W V) as U.
+    unfold spec_bytes in *. rewrite V in *. cbn [tl app] in U.
+    cbn [map app f_read_byte ftake]. cbn [N.eqb Pos.eqb].
+    cbn [map app] in U. rewrite U.
+    destruct (match r_inkey cfg with Some k => check_key k st f | None => (None, st) end) as [kerr st'].
+    destruct kerr; [reflexivity|]. destruct (r_dialect cfg); reflexivity.
+  - pose proof (unmarshal_spec_v1 f p rest W V) as U.
+    unfold spec_bytes in *. rewrite V in *. cbn [tl app] in U.
+    cbn [map app f_read_byte ftake]. cbn [N.eqb Pos.eqb].
+    cbn [map app] in U. rewrite U.
+    destruct (match r_inkey cfg with Some k => check_key k st f | None => (None, st) end) as [kerr st'].
+    destruct kerr; [reflexivity|]. destruct (r_dialect cfg); reflexivity.
+Qed.
+
 Theorem roundtrip_flat f p st rest : frame_wf f p ->
   flat_reader_read nocfg st (map B (spec_bytes f p) ++ rest) = (RFrame f, st, rest).
-Proof.
-  intros W. pose proof W as W0.
-  unfold frame_wf in W. destruct W as (Hm & Hp & Hl & Hs & Hy & Hc & Hk & Hv).
-  unfold flat_reader_read, g_reader_read, spec_bytes, frame_id in *.
-  destruct (f_v2 f) eqn:V.
-  - destruct Hv as (Hid & Hcm & Hsig).
-    cbn [map app f_read_byte ftake]. cbn [N.eqb Pos.eqb].
-    unfold g_unmarshal_v2.
-    match goal with |- context [f_peek_discard 9 ?l] =>
-      replace l with (map B [nlen p; f_inc f; f_cmp f; f_seq f; f_sys f; f_comp f;
-                             msg_id (f_msg f) mod 256; (msg_id (f_msg f) / 256) mod 256; msg_id (f_msg f) / 65536]
-                      ++ (map B p ++ map B [f_ck f mod 256; f_ck f / 256] ++
-                          map B (if f_inc f =? 1 then sig_block f else []) ++ rest))
-        by (rewrite !map_app; cbn [map app]; rewrite <- !app_assoc; reflexivity) end.
-    rewrite fpd_exact by reflexivity.
-    assert (Hinc : negb (f_inc f =? 0) && negb (f_inc f =? 1) = false).
-    { destruct Hsig as [(Hi & _) | (Hi & _)]; rewrite Hi; reflexivity. }
-    rewrite Hinc. unfold nlen. rewrite Nat2N.id. rewrite fpayload_exact.
-    rewrite fpd_exact by reflexivity. rewrite le_dec_2, le_dec_3 by assumption.
-    destruct Hsig as [(Hi & Hsg & Hlk & Hts) | (Hi & Hlk & Hts & s & Hsg & Hsl & Hsb)].
-    + unfold is_signed. cbn [f_inc]. rewrite Hi. cbn [N.land N.eqb negb app map].
-      unfold nocfg. cbn [r_inkey r_dialect].
-      close_frame.
-    + unfold is_signed. cbn [f_inc]. rewrite Hi. cbn [N.land Pos.land N.eqb negb N.eqb Pos.eqb].
-      unfold sig_block. rewrite Hsg.
-      match goal with |- context [f_peek_discard 13 ?l] =>
-        replace l with (map B ([f_link f; f_ts f mod 256; (f_ts f / 256) mod 256; (f_ts f / 65536) mod 256;
-                                (f_ts f / 16777216) mod 256; (f_ts f / 4294967296) mod 256;
-                                f_ts f / 1099511627776] ++ s) ++ rest) by reflexivity end.
-      rewrite fpd_exact by (rewrite app_length, Hsl; reflexivity).
-      cbn [hd app skipn firstn]. rewrite le_dec_6 by assumption.
-      unfold nocfg. cbn [r_inkey r_dialect]. unfold set_sig. cbn [f_v2 f_inc f_cmp f_seq f_sys f_comp f_msg f_ck].
-      close_frame.
-  - destruct Hv as (Hid & Hi & Hcm & Hsg & Hlk & Hts).
-    cbn [map app f_read_byte ftake]. cbn [N.eqb Pos.eqb].
-    unfold g_unmarshal_v1.
-    match goal with |- context [f_peek_discard 5 ?l] =>
-      replace l with (map B [nlen p; f_seq f; f_sys f; f_comp f; msg_id (f_msg f)]
-                      ++ (map B p ++ map B [f_ck f mod 256; f_ck f / 256] ++ rest))
-        by (rewrite !map_app; cbn [map app]; rewrite <- !app_assoc; reflexivity) end.
-    rewrite fpd_exact by reflexivity.
-    unfold nlen. rewrite Nat2N.id. rewrite fpayload_exact.
-    rewrite fpd_exact by reflexivity. rewrite le_dec_2 by assumption.
-    unfold nocfg. cbn [r_inkey r_dialect].
-    close_frame.
-Qed.
+Proof. intros W. rewrite (read_spec_bytes nocfg f p st rest W). reflexivity. Qed.
 
 (* the same on the chunked bufio model, for every way of splitting the bytes into reads *)
 Theorem roundtrip_chunked f p st s : frame_wf f p ->
